@@ -323,6 +323,15 @@ def gen_seq(rng, depth=0):
             items.append(r); exps.append(e)
         if n == 0:
             kind = "float"
+        rr = {"k": "seq", "c": c, "items": items}
+        if kind == "int" and n > 0:
+            # epoch seconds stored in the narrower integer types (a netCDF time variable is often int32/uint32)
+            vs = [x["v"] for x in items]
+            fits = [d for d, lo, hi in (("int32", -2 ** 31, 2 ** 31), ("uint32", 0, 2 ** 32), ("int64", -2 ** 63, 2 ** 63))
+                    if all(lo <= v < hi for v in vs)]
+            rr["idtype"] = rng.choice(fits)
+            tags.append("native:" + rr["idtype"])
+        return rr, ("seq", exps), tags
     else:
         for _ in range(n):
             q = rng.random()
